@@ -4,8 +4,8 @@ import hirq, anchors, absx, sem, driver
 
 EXPLANATION = ("R1 path-sensitive extraction of the envelope decoder: on every success path the returned id is parse_uint of the "
                "universal INTEGER primitive child adjacent to the protocolOp child - narrowed to the 32-bit RequestId only after a range "
-               "test or by a checked conversion -, controls come from the trailing [0] constructed child; R2 every routing-map access and ID release in the driver's response arm is keyed by the ID decoded from that "
-               "very response; R3 every reply send in that arm goes to the sender obtained by that lookup and carries only data of the "
+               "test or by a checked conversion -, controls come from the trailing [0] constructed child; R2 on the enumerated paths of the driver's response arm every routing-map access and ID release is keyed by the ID decoded from that "
+               "very response; R3 every reply send in that arm (a delivery call by role: a call on a reply / item sender that is handed a message of the channel's type) goes to the sender obtained by that lookup and carries only data of the "
                "same decoded message; R4 the protocolOp classification table equals RFC 4511 (4,25 -> Entry; 19 -> Referral; 5 -> Done, "
                "only Done ends the search); R5 on every path of the response arm a reply send, a registration or an ID release comes after a lookup of the decoded ID that found an operation (a message nobody waits for reaches nobody and changes nothing); R6 registration keys/values "
                "in the request arm; R7 the request tuple carries the allocated ID and the reply channel that is awaited; R8 only the driver "
@@ -15,7 +15,15 @@ UNDECIDED = ['channel and Framed FIFO behaviour (trusted)']
 ASSUMPTIONS = []
 SHARED = [('C07', ('B2.reader', 'B7.'), 'R14.framing'), ('C06', ('G1.', 'G2.'), 'R14.framing'), ('C05', ('N1.', 'N2.', 'N3.', 'N4.', 'N5.', 'N8.'), 'R11.ids-unique'), ('C02', ('S13.',), 'R12.id-on-the-wire'), ('C10', ('Q4.entries-only.start', 'Q4.entries-only.collects', 'Q4.entries-only.finish'), 'R13.referrals-of-this-search'),
           ('C12', ('O1.scrub-own-id', 'O2.scrub-own-id', 'O3.scrub-key'), 'R15.timeout-disturbs-no-other-operation'),
-          ('C17', ('W3.',), 'R16.no-response-from-before-the-tls-upgrade')]      # routing by ID presupposes that concurrent operations never share an ID and that the ID of an operation the client gave up is not handed out again while its late reply may still arrive (numbering only advances); an expired timeout makes the driver forget exactly the timed-out operation: the scrub names that operation's own ID (not whatever the handle issued before it, which may be a running search) and the scrub arm removes nothing else; R16 stands for "a response whose ID matches no outstanding operation is delivered to nobody" across the StartTLS upgrade: the driver that runs over the protected transport decodes only what arrives through it - the rebuilt Framed starts with an empty read buffer, so a message the peer appended in cleartext to the StartTLS response (while no operation with its ID existed) is not kept and handed to the first operation that later takes that ID
+          ('C17', ('W3.',), 'R16.no-response-from-before-the-tls-upgrade'),
+          # C01's clauses "a response whose ID matches no outstanding operation ... does not disturb any other operation" and "each
+          # operation sees its responses (the one sent under its own ID)": the one-operation driver (the StartTLS exchange) stops
+          # reading and hands the connection back as soon as it believes its operation was answered.  When that belief is set by a
+          # message nobody waits for (an unsolicited notification, a response under an unknown ID), that unmatched message ends the
+          # exchange: the StartTLS operation never receives the response the server then sends under its own ID.  C04 L6 decides, by
+          # induction over the enumerated paths of the select! arms, that the flag which lets the driver hand the connection back
+          # becomes true only where a reply was sent on the sender taken out of the result map under the decoded ID
+          ('C04', ('L6.',), 'R17.unmatched-response-does-not-end-the-pending-exchange')]      # routing by ID presupposes that concurrent operations never share an ID and that the ID of an operation the client gave up is not handed out again while its late reply may still arrive (numbering only advances); an expired timeout makes the driver forget exactly the timed-out operation: the scrub names that operation's own ID (not whatever the handle issued before it, which may be a running search) and the scrub arm removes nothing else; R16 stands for "a response whose ID matches no outstanding operation is delivered to nobody" across the StartTLS upgrade: the driver that runs over the protected transport decodes only what arrives through it - the rebuilt Framed starts with an empty read buffer, so a message the peer appended in cleartext to the StartTLS response (while no operation with its ID existed) is not kept and handed to the first operation that later takes that ID
 
 RFC4511_SEARCH_RESP = {4: 'SearchItem::Entry', 25: 'SearchItem::Entry', 19: 'SearchItem::Referral', 5: 'SearchItem::Done'}
 
@@ -81,66 +89,83 @@ def run(ctx):
     # ------------------------------------------------------------------ response arm
     resp = C.arms['response']
     rbody = resp['body']
-    rb = resp['bindings'][0][0]
-    o_resp = L.origin_of_bind(rb)
-    o_msg = hirq.project(hirq.project(o_resp, ('variant', 'Some', 0)), ('variant', 'Ok', 0))
-    o_id = hirq.project(o_msg, ('tup', 0))
-    msg_root = o_msg[0]
-
-    def from_message(o):
-        rs = L.roots(o, stop=(msg_root,))
-        bad = [r for r in rs if not (r == msg_root or r[0] in ('lit', 'const'))]
-        return not bad, bad
-
+    # R2 / R3 (target, origin of the payload) are path rules: every routing-map access, ID release and reply send of the response arm
+    # is judged on the enumerated paths of the arm on which it occurs, by the *terms* the interpreter has for its key / receiver /
+    # message - the ID is ('field', MSG, '0') of the message the arm was entered with, however the arm's pattern and the handler
+    # take the answer of `stream.next()` apart (`resp => match resp { Some(Ok(r)) => .. }`, `Some(resp) = .. => match resp { Ok(r) .. }`,
+    # `let Some(resp) = resp else { break }`).  A site of the arm that lies on no enumerated path must be in a branch the interpreter
+    # decided is never taken; otherwise it was not looked at and the rule fails closed.
+    def plain(t):
+        """a term with integer casts between ID types and references taken off"""
+        while isinstance(t, tuple) and t and t[0] == 'cast':
+            t = t[1]
+        return t
+    r2_outs, r2_I = driver.arm_paths(C, 'response')
     n_access = 0
-    lookups = {}   # id(node) -> which map
-    lookups_all = {n.get('id'): w for n, c in walk(rbody) if n['k'] == 'MethodCall' for w in ('result', 'search') if C.is_map_place(n['recv'], w) and n['name'] in ('get', 'remove', 'get_mut', 'remove_entry')}
+    acc = {}        # id(node) -> (node, which, [(path, event index, method, args)])
     for n, c in walk(rbody):
         if n['k'] != 'MethodCall':
             continue
         for which in ('result', 'search'):
             if C.is_map_place(n['recv'], which):
-                m = n['name']
                 n_access += 1
-                lookups[n.get('id')] = which
-                if not n['args']:
-                    ctx.fail('R2.map-method', '%s|%s' % (which, m), loc(n), 'routing map used without a key in the response arm')
-                    continue
-                k = hirq.strip_casts(L.origin(n['args'][0]))
-                ctx.add('R2.key-is-decoded-id', '%s|%s' % (which, m), loc(n), k == o_id,
-                        'routing map `%s` accessed with key %s, not the ID decoded from this response (%s)' % (which, hirq.fmt_origin(k), hirq.fmt_origin(o_id)))
-                okm = m in ('get', 'remove', 'get_mut', 'contains_key', 'remove_entry')
-                if m == 'insert' and k == o_id and len(n['args']) == 2:
-                    # putting back, under the decoded ID, the sender that was taken out under it (what is put back is decided on the
-                    # paths: R4 / driver.net_registration)
-                    vo = L.origin(n['args'][1])
-                    okm = vo[0][0] == 'call' and lookups_all.get(vo[0][2]) == which and vo[1] == (('variant', 'Some', 0),)
-                ctx.add('R2.map-method', '%s|%s' % (which, m), loc(n), okm,
-                        'unexpected routing-map method `%s` in the response arm' % m)
+                acc[id(n)] = (n, which, [])
         if C.is_idset_place(n['recv']) and n['args']:
-            k = hirq.strip_casts(L.origin(n['args'][0]))
-            ctx.add('R2.release-is-decoded-id', 'idset|' + n['name'], loc(n), k == o_id,
-                    'ID %s released in the response arm is not the decoded one' % hirq.fmt_origin(k))
+            acc[id(n)] = (n, 'idset', [])
+    for o in r2_outs:
+        for which in ('result', 'search', 'idset'):
+            for i, name, args, node in driver.map_calls(C, o, which):
+                if id(node) in acc:
+                    acc[id(node)][2].append((o, i, name, args))
+    for n, which, occ in acc.values():
+        m = n['name']
+        inst = ('idset|' + m) if which == 'idset' else '%s|%s' % (which, m)
+        rule = 'R2.release-is-decoded-id' if which == 'idset' else 'R2.key-is-decoded-id'
+        if not occ:
+            ctx.add(rule, inst, loc(n), driver.never_taken(L, r2_I, n), 'a routing-map access / ID release of the response arm lies on no enumerated path of the arm: it was not analysed')
+            continue
+        if which != 'idset' and any(len(args) < 2 for o, i, name, args in occ):
+            ctx.fail('R2.map-method', inst, loc(n), 'routing map used without a key in the response arm')
+            continue
+        keys = {plain(args[1]) for o, i, name, args in occ if len(args) > 1}
+        bad = sorted(absx.fmt(k)[:60] for k in keys if k != driver.DECODED_ID)
+        if which == 'idset':
+            ctx.add(rule, inst, loc(n), not bad, 'ID %s released in the response arm is not the decoded one' % ', '.join(bad))
+            continue
+        ctx.add(rule, inst, loc(n), not bad,
+                'routing map `%s` accessed with key %s, not the ID decoded from this response' % (which, ', '.join(bad)))
+        okm = m in ('get', 'remove', 'get_mut', 'contains_key', 'remove_entry')
+        if m == 'insert' and not bad:
+            # putting back, under the decoded ID, the sender that was taken out under it: in sum the path leaves the entry as it was
+            okm = all(driver.net_registration(C, o, which, driver.DECODED_ID) == 'kept' for o, i, name, args in occ)
+        ctx.add('R2.map-method', inst, loc(n), okm, 'unexpected routing-map method `%s` in the response arm' % m)
     ctx.floor('R2', 'routing-map accesses in the response arm', n_access, 2)
 
-    # R3 sends
-    sends = []
+    # R3 sends: the delivery calls of the arm, by role (a call on a reply / item sender that is handed a message of the channel's
+    # type - driver.hands_over -, whatever the channel flavour calls it)
+    sends = {}
     for n, c in walk(rbody):
-        if n['k'] == 'MethodCall' and n['name'] == 'send':
-            rt = hirq.strip_refs(n['recv'].get('ty', ''))
-            if rt in (anchors.T_RESULT_SENDER, anchors.T_ITEM_SENDER):
-                sends.append((n, rt))
+        for rt, want in ((anchors.T_RESULT_SENDER, 'result'), (anchors.T_ITEM_SENDER, 'search')):
+            if driver.hands_over(n, rt):
+                sends[id(n)] = (n, want, [])
     ctx.floor('R3', 'reply sends in the response arm', len(sends), 2)
-    for n, rt in sends:
-        ro = L.origin(n['recv'])
-        root = ro[0]
-        want = 'search' if rt == anchors.T_ITEM_SENDER else 'result'
-        ok = root[0] == 'call' and lookups.get(root[2]) == want and ro[1] == (('variant', 'Some', 0),)
-        ctx.add('R3.target-is-lookup-result', want, loc(n), ok,
-                'reply is sent on %s, which is not the sender found under the decoded ID in the %s map' % (hirq.fmt_origin(ro), want))
-        okp, bad = from_message(L.origin(n['args'][0]))
-        ctx.add('R3.payload-from-same-message', want, loc(n), okp,
-                'reply payload contains data not originating in the decoded message: %s' % [hirq.fmt_origin((b, ())) for b in bad])
+    for o in r2_outs:
+        for rt, want in ((anchors.T_RESULT_SENDER, 'result'), (anchors.T_ITEM_SENDER, 'search')):
+            to_registered = {id(node) for i, node in driver.replies_to_registered(C, o, driver.DECODED_ID, want)}
+            for i, args, node in driver.sends(o, rt):
+                if id(node) in sends:
+                    foreign = absx.leaves(args[1], lambda x: x[0] in ('param', 'unbound', 'unk', 'fresh') and x != driver.ARM)
+                    sends[id(node)][2].append((id(node) in to_registered, args[0], foreign))
+    for n, want, occ in sends.values():
+        if not occ:
+            ctx.add('R3.target-is-lookup-result', want, loc(n), driver.never_taken(L, r2_I, n), 'a reply send of the response arm lies on no enumerated path of the arm: it was not analysed')
+            continue
+        badt = [absx.fmt(t)[:70] for ok, t, fo in occ if not ok]
+        ctx.add('R3.target-is-lookup-result', want, loc(n), not badt,
+                'reply is sent on %s, which is not the sender found under the decoded ID in the %s map' % (badt[0] if badt else '', want))
+        badp = sorted({absx.fmt(x)[:40] for ok, t, fo in occ for x in fo})
+        ctx.add('R3.payload-from-same-message', want, loc(n), not badp,
+                'reply payload contains data not originating in the decoded message: %s' % badp)
 
     # R3 on the enumerated paths of the response arm: what is handed to a waiting operation is the decoded message itself - the
     # protocolOp it carried and the control list it carried, the latter as decoded (not a list that an earlier statement of the
@@ -258,9 +283,9 @@ def run(ctx):
     # path, or in a branch the interpreter decided is never taken; otherwise it was not looked at and the rule fails closed.
     r5_sites = {}
     for n, c in walk(rbody):
-        if n['k'] == 'MethodCall' and (n['name'] in ('send', 'insert') or C.is_idset_place(n['recv'])):
+        if n['k'] == 'MethodCall':
             rt = hirq.strip_refs(n['recv'].get('ty', ''))
-            if rt in (anchors.T_RESULT_SENDER, anchors.T_ITEM_SENDER, anchors.T_RESULTMAP, anchors.T_SEARCHMAP) or C.is_idset_place(n['recv']):
+            if driver.hands_over(n, anchors.T_RESULT_SENDER) or driver.hands_over(n, anchors.T_ITEM_SENDER) or (n['name'] == 'insert' and rt in (anchors.T_RESULTMAP, anchors.T_SEARCHMAP)) or C.is_idset_place(n['recv']):
                 r5_sites[id(n)] = (n, [])
     r5_outs, r5_I = driver.arm_paths(C, 'response')
     for o in r5_outs:
